@@ -927,7 +927,8 @@ pub fn execute_table(p: &TablePlan) -> RunOutcome {
                 if p.r {
                     // -r prints the formula's variables in variable order
                     let want: Vec<String> = order.iter().filter(|n| model.text_names.contains(n)).cloned().collect();
-                    if parsed.ordering != want {
+                    let listed = p.ordering.as_ref().map(|o| o.names());
+                    if !crate::model::table::order_acceptable(&parsed.ordering, &want, listed.as_ref()) {
                         let (pr, or) = if prop == "C11" { ("C11", "O1") } else { (prop, "T1") };
                         vs.push(viol(pr, or, "export-ordering", format!("-r printed {:?}, expected {:?}", parsed.ordering, want)));
                     }
@@ -947,6 +948,7 @@ pub fn execute_table(p: &TablePlan) -> RunOutcome {
                         header,
                         index: model.text_names.iter().enumerate().map(|(i, n)| (n.as_str(), i)).collect::<BTreeMap<_, _>>(),
                         func,
+                        listed: p.ordering.as_ref().map(|o| o.names()),
                     };
                     if func.is_true() || func.is_false() {
                         bump(&mut stats, "probe.constant_function");
@@ -1202,14 +1204,22 @@ fn api_ordering_check(p: &TablePlan, model: &Model, entries: &[(String, usize)],
             if tt != *func {
                 vs.push(viol("C11", "O4", "function", format!("`{}` under the API ordering {:?} denotes a different function by name", model.text, entries)));
             }
+            // which ids the variables the ordering does not list get is the library's business (C11
+            // fixes the listed ones): they must be distinct from every other id, `vars` must hold
+            // every name of the text exactly once, listed names with their listed ids, in id order,
+            // and `free_vars` must be the free names in that same id order
+            let id_now: BTreeMap<String, usize> = vars.iter().map(|(n, i)| (n.clone(), *i)).collect();
             let mut want_free = model.free.clone();
-            want_free.sort_by_key(|n| id_of[n]);
+            want_free.sort_by_key(|n| id_now.get(n).copied().unwrap_or(usize::MAX));
             if free != want_free {
                 vs.push(viol("C11", "O4", "free_vars", format!("`{}` under the API ordering {:?}: free_vars {:?}, expected {:?} (id order)", model.text, entries, free, want_free)));
             }
             let mut all: Vec<(String, usize)> = names.iter().map(|n| (n.clone(), id_of[n])).collect();
             all.sort_by_key(|(_, id)| *id);
-            if vars != all {
+            let once = names.iter().all(|n| vars.iter().filter(|(m, _)| m == n).count() == 1) && vars.iter().all(|(m, _)| names.contains(m) || entries.iter().any(|(e, _)| e == m));
+            let listed_kept = vars.iter().all(|(m, i)| entries.iter().find(|(e, _)| e == m).is_none_or(|(_, id)| id == i));
+            let distinct_sorted = vars.windows(2).all(|w| w[0].1 < w[1].1);
+            if !(once && listed_kept && distinct_sorted) {
                 vs.push(viol("C11", "O4", "vars", format!("`{}` under the API ordering {:?}: vars {:?}, expected each name once in id order with listed ids kept {:?}", model.text, entries, vars, all)));
             }
         }
